@@ -22,8 +22,8 @@ ASSUMPTIONS = ["restore_cpgraph always extracts under /tmp; the extracted direct
                "breakdown frames are compared up to row order and dtype"]
 FLOAT_KEYS = ["files"]          # fractional-time-unit workload class (hv/shard.py)
 PLAN = {"quick": {"shards": 16, "cases": 192, "timeout": 900}, "thorough": {"shards": 16, "cases": 2000, "timeout": 3400}}
-FLOORS = {"quick": {"distinct_nontrivial": 60, "cycles": 250, "graphs": 120, "clamped_edge_graphs": 10, "breakdowns_compared": 250, "graphs_with_csv_hostile_names": 30},
-          "thorough": {"distinct_nontrivial": 900, "cycles": 4000, "graphs": 1900, "clamped_edge_graphs": 150, "breakdowns_compared": 4000, "graphs_with_csv_hostile_names": 500}}
+FLOORS = {"quick": {"distinct_nontrivial": 60, "cycles": 250, "graphs": 120, "clamped_edge_graphs": 10, "breakdowns_compared": 250, "graphs_with_csv_hostile_names": 30, "batch_restores": 60},
+          "thorough": {"distinct_nontrivial": 900, "cycles": 4000, "graphs": 1900, "clamped_edge_graphs": 150, "breakdowns_compared": 4000, "graphs_with_csv_hostile_names": 500, "batch_restores": 900}}
 
 
 ODD_NAMES = ["<forward>", "<lambda>", "(anonymous)", "None", "null", "nan", "NA", "N/A", "", "1e5", "0012", "True", " padded "]
@@ -93,13 +93,35 @@ def _cleanup_extracted(out_dir: str) -> None:
         q = os.path.dirname(q)
 
 
+def _compare(res, ctag, rg, snap, rows0) -> None:  # noqa: ANN001
+    s2 = _snapshot(rg)
+    for key, what in (("nodes", "node set"), ("node_list", "node_list"), ("e2e", "edge_to_event_map"), ("start", "event_to_start_node_map"),
+                      ("end", "event_to_end_node_map"), ("path", "critical_path_nodes"), ("evs", "critical_path_events_set"),
+                      ("eset", "critical_path_edges_set")):
+        if s2[key] != snap[key]:
+            res.bad(f"restored-{key}", f"{ctag}: {what} differs from the original")
+    if set(s2["edges"]) != set(snap["edges"]):
+        res.bad("restored-edges", f"{ctag}: edge set differs: missing {sorted(set(snap['edges']) - set(s2['edges']))[:4]} extra {sorted(set(s2['edges']) - set(snap['edges']))[:4]}")
+    else:
+        diff = [(e, snap["edges"][e], s2["edges"][e]) for e in snap["edges"] if snap["edges"][e] != s2["edges"][e]][:3]
+        if diff:
+            res.bad("restored-edge-data", f"{ctag}: edge weight attribute / edge object (weight, type) differ (edge, original, restored): {diff}")
+    ok, bd1 = drv.guard(res, "get_critical_path_breakdown (restored)", rg.get_critical_path_breakdown)
+    if ok:
+        res.counters["breakdowns_compared"] += 1
+        rows1 = _bd_rows(bd1)
+        if rows1 != rows0:
+            res.bad("restored-breakdown", f"{ctag}: breakdown differs: only original {list((rows0 - rows1).items())[:2]}; only restored {list((rows1 - rows0).items())[:2]}")
+
+
 def run_case(case: Dict[str, Any], ctx: Any) -> core.CaseResult:
     from hta.analyzers.critical_path_analysis import restore_cpgraph
 
     res = core.CaseResult()
     nontrivial = False
     n = 0
-    for A in cpdrv.analyse(case, ctx, res, max_windows=2):
+    batch = []
+    for A in cpdrv.analyse(case, ctx, res, max_windows=2, cleanup=False):
         g = A.graph
         tag = f"window={A.annotation!r}/{A.instance} rank={A.rank}"
         if A.ok is not True:
@@ -113,6 +135,7 @@ def run_case(case: Dict[str, Any], ctx: Any) -> core.CaseResult:
         if not ok:
             continue
         snap = _snapshot(g)
+        batch.append((A, g, snap, _bd_rows(bd0), tag))
         w0 = sum(g.edges[u, v]["weight"] for u, v in zip(snap["path"], snap["path"][1:]))
         rows0 = _bd_rows(bd0)
         cur = g
@@ -130,24 +153,7 @@ def run_case(case: Dict[str, Any], ctx: Any) -> core.CaseResult:
                 break
             res.counters["cycles"] += 1
             ctag = f"{tag} after cycle {k + 1}"
-            s2 = _snapshot(rg)
-            for key, what in (("nodes", "node set"), ("node_list", "node_list"), ("e2e", "edge_to_event_map"), ("start", "event_to_start_node_map"),
-                              ("end", "event_to_end_node_map"), ("path", "critical_path_nodes"), ("evs", "critical_path_events_set"),
-                              ("eset", "critical_path_edges_set")):
-                if s2[key] != snap[key]:
-                    res.bad(f"restored-{key}", f"{ctag}: {what} differs from the original")
-            if set(s2["edges"]) != set(snap["edges"]):
-                res.bad("restored-edges", f"{ctag}: edge set differs: missing {sorted(set(snap['edges']) - set(s2['edges']))[:4]} extra {sorted(set(s2['edges']) - set(snap['edges']))[:4]}")
-            else:
-                diff = [(e, snap["edges"][e], s2["edges"][e]) for e in snap["edges"] if snap["edges"][e] != s2["edges"][e]][:3]
-                if diff:
-                    res.bad("restored-edge-data", f"{ctag}: edge weight attribute / edge object (weight, type) differ (edge, original, restored): {diff}")
-            ok, bd1 = drv.guard(res, "get_critical_path_breakdown (restored)", rg.get_critical_path_breakdown)
-            if ok:
-                res.counters["breakdowns_compared"] += 1
-                rows1 = _bd_rows(bd1)
-                if rows1 != rows0:
-                    res.bad("restored-breakdown", f"{ctag}: breakdown differs: only original {list((rows0 - rows1).items())[:2]}; only restored {list((rows1 - rows0).items())[:2]}")
+            _compare(res, ctag, rg, snap, rows0)
             if k < case["cycles"] - 1:
                 cur = rg                      # recomputing may legitimately pick another equal-weight path: only after the last cycle
                 continue
@@ -164,6 +170,40 @@ def run_case(case: Dict[str, Any], ctx: Any) -> core.CaseResult:
         if res.sample is None:
             res.sample = {"window": [A.annotation, str(A.instance)], "cycles": case["cycles"], "nodes": len(g.node_list), "edges": g.number_of_edges(),
                           "path_weight": w0, "clamped": any(d["weight"] != d["object"].weight for _, _, d in g.edges(data=True))}
+    # ---- several graphs of one session: saved under one directory name in turn, or under names that differ only after a dot
+    # and restored after all of them were saved; nothing is tidied up in between (a user does not clean /tmp either)
+    if len(batch) == 2 and not res.violations:
+        how = core.rng("c19batch", case["win_seed"]).choice(["same_dir", "dotted", "dotted_version"])
+        names = {"same_dir": ["cp_graph", "cp_graph"], "dotted": ["cp_graph.rank0", "cp_graph.rank1"], "dotted_version": ["run_v1.0", "run_v1.1"]}[how]
+        wd = batch[0][0].workdir
+        dirs = [os.path.join(wd, "batch", nm) for nm in names]
+        zips, ok = [], True
+        if how == "same_dir":
+            for (A, g, snap, rows0, tag), od in zip(batch, dirs):
+                ok, zp = drv.guard(res, "CPGraph.save", g.save, od)
+                if not ok:
+                    break
+                ok, rg = drv.guard(res, "restore_cpgraph", restore_cpgraph, zp, A.ta.t, A.rank)
+                if not ok:
+                    break
+                _compare(res, f"{tag} saved to the directory an earlier graph was saved to and restored from", rg, snap, rows0)
+                res.counters["batch_restores"] += 1
+        else:
+            for (A, g, snap, rows0, tag), od in zip(batch, dirs):
+                ok, zp = drv.guard(res, "CPGraph.save", g.save, od)
+                zips.append(zp)
+                if not ok:
+                    break
+            if ok:
+                for (A, g, snap, rows0, tag), zp, od in zip(batch, zips, dirs):
+                    ok, rg = drv.guard(res, "restore_cpgraph", restore_cpgraph, zp, A.ta.t, A.rank)
+                    if ok:
+                        _compare(res, f"{tag} saved as {os.path.basename(od)!r} next to {[os.path.basename(x) for x in dirs]} and restored after both were saved", rg, snap, rows0)
+                        res.counters["batch_restores"] += 1
+        for od in dirs:
+            _cleanup_extracted(od)
+    for A, *_ in batch[:1]:
+        ctx.scratch.drop(A.workdir)
     res.nontrivial = nontrivial
     res.trivial_reason = "no graph with >= 10 edges and >= 3 edge types"
     res.key = core.digest([case["files"], case["win_seed"], case["zero_weight"], case["cycles"]])
